@@ -20,6 +20,11 @@ func genRealtime(g *gen, prop string, budget int, emit func(string)) bool {
 			"rrt 10 2 6 0 : lost@35:3",
 			"rrt 5 3 6 0 : lost@12:2 ; lost@40:5",
 			"rrt 0 4 50 0 : busy@1:40:1",
+			// a second indication announcing LESS than what remains of the first: the longer silence
+			// stands (each indication's wait time counts from when it was taken in)
+			"rrt 5 4 10 0 : busy@5:50:1 ; busy@15:2:1",
+			"rrt 2 4 30 0 : busy@3:50:1 ; busy@13:0:1",
+			"rrt 10 3 8 0 : busy@12:500:9 ; busy@30:5:9",
 		}
 		n := 0
 		for _, s := range fixed {
@@ -43,6 +48,15 @@ func genRealtime(g *gen, prop string, budget int, emit func(string)) bool {
 			span := senders * burst * pause
 			var bs []string
 			at := 0
+			if pause > 0 && g.r.Intn(4) == 0 {
+				// overlapping indications with a shorter second wait
+				at += g.r.Intn(span/3 + 3)
+				ctrl := 1 + g.r.Intn(65535)
+				bs = append(bs, fmt.Sprintf("busy@%d:%d:%d", at, g.pick(50, 100, 500), ctrl))
+				at += 3 + g.r.Intn(20)
+				bs = append(bs, fmt.Sprintf("busy@%d:%d:%d", at, g.pick(0, 2, 5, 20), ctrl))
+				g.stats["rrt.busy-overlap-shorter"]++
+			}
 			for k := g.pick(0, 1, 1, 2, 3, 4); k > 0; k-- {
 				at += g.r.Intn(span/2 + 3)
 				if g.r.Intn(3) == 0 {
@@ -106,10 +120,56 @@ func genRealtime(g *gen, prop string, budget int, emit func(string)) bool {
 			g.stats[fmt.Sprintf("swrt.senders%d", s)]++
 			emit(fmt.Sprintf("swrt %d %d", s, 5+g.r.Intn(60)))
 		}
+	case "C10rt":
+		// 1..4 goroutines call Close at the same moment, with and without pending Sends, gateway
+		// traffic and a reader
+		n := 0
+		for _, s := range []string{"crt 1 0 1 0", "crt 2 0 1 0", "crt 4 0 0 0", "crt 3 2 1 1", "crt 4 3 0 1", "crt 2 1 0 0"} {
+			if n < budget {
+				emit(s)
+				n++
+			}
+		}
+		for ; n < budget; n++ {
+			c := 1 + g.r.Intn(4)
+			g.stats[fmt.Sprintf("crt.closers%d", c)]++
+			emit(fmt.Sprintf("crt %d %d %d %d", c, g.r.Intn(4), g.r.Intn(2), g.r.Intn(2)))
+		}
 	default:
 		return false
 	}
 	return true
+}
+
+// crt: Close called by several goroutines at once on a tunnel whose socket is usable: exactly one
+// disconnect request, every Close returns, Inbound closes, Send fails promptly, Close again returns
+func (m *mon) crt(script, trace string) int {
+	if !strings.HasPrefix(trace, "dreq=") {
+		m.fail("bad-trace", trace)
+		return 0
+	}
+	kv := map[string]string{}
+	for _, f := range strings.Fields(trace) {
+		if p := strings.SplitN(f, "=", 2); len(p) == 2 {
+			kv[p[0]] = p[1]
+		}
+	}
+	if kv["dreq"] != "1" {
+		m.fail("disconnect-request-count/concurrent-closers", fmt.Sprintf("%s disconnect requests were written for %s concurrent Close calls on a usable socket (exactly one is due)", kv["dreq"], strings.Fields(script)[1]))
+	}
+	if r := strings.SplitN(kv["returned"], "/", 2); len(r) != 2 || r[0] != r[1] {
+		m.fail("close-did-not-return", "Close calls returned within 3 s: "+kv["returned"])
+	}
+	if kv["inbound"] != "closed" {
+		m.fail("inbound-not-closed", "Inbound still open 1 s after every Close returned")
+	}
+	if kv["send"] != "err" {
+		m.fail("send-after-close", "Send after Close: "+kv["send"])
+	}
+	if kv["second"] != "ok" {
+		m.fail("close-not-idempotent", "a further Close did not return within 1 s")
+	}
+	return 5
 }
 
 // swrt: the property itself on a real-time run with concurrent senders: every telegram whose Send
